@@ -521,8 +521,8 @@ theorem inv_arithAtomic (id lhs minus rhs meas) (ihl : InvClaim lhs) (ihr : InvC
   intro σ mm cm P hden hreg
   simp only [regular, Bool.and_eq_true] at hreg
   obtain ⟨l, r, hl, hr, hcases⟩ := denote_arithAtomic hden
-  obtain ⟨l1, l2, l3⟩ := ihl σ mm cm l hl hreg.1
-  obtain ⟨r1, r2, r3⟩ := ihr σ mm cm r hr hreg.2
+  obtain ⟨l1, l2, l3⟩ := ihl σ mm cm l hl hreg.1.1
+  obtain ⟨r1, r2, r3⟩ := ihr σ mm cm r hr hreg.1.2
   have hdc : ∀ c, c ∈ lhs.definedChannels ∨ c ∈ rhs.definedChannels →
       c ∈ (PT.arithAtomic id lhs minus rhs meas).definedChannels := by
     intro c hc
